@@ -273,3 +273,84 @@ def quarter_grid(signed, n_word, ranges=3):
     a = (lo - extra) * 4 - 3
     b = (hi + extra) * 4 + 3
     return a, b     # numerators over 4, inclusive
+
+
+# ------------------------------------------------------------------------------ operands with a history
+HISTORIES = ['deepcopy', 'copy', 'fxp_of', 'fxp_like', 'element', 'resize_roundtrip', 'resign_roundtrip', 'raw_set', 'equal', 'from_bin',
+             'from_values', 'like_template', 'double_transpose', 'reset_after_flags']
+
+
+def historied(Fxp, x, rng, how=None):
+    """an object with the same format, codes and configuration as the real, unscaled `x`, but obtained through another public
+    route (copy, indexing, conversion round trip, raw write, strings, ...).  The properties quantify over values and formats,
+    not over how an operand came to be: every oracle must give the same verdict for it.  Returns (object, route name);
+    falls back to x itself when the route does not apply."""
+    how = how or rng.choice(HISTORIES)
+    s, w, nf = x.signed, x.n_word, x.n_frac
+    shape = np.shape(x.val)
+    try:
+        codes = np.asarray(x.val)
+        if how == 'deepcopy':
+            y = x.deepcopy()
+        elif how == 'copy':
+            y = x.copy()
+        elif how == 'fxp_of':
+            y = Fxp(x)
+        elif how == 'fxp_like':
+            y = Fxp(x, like=x)
+        elif how == 'element':
+            if shape == ():
+                big = Fxp(np.array([0, int(codes), 1 if w > 1 or not s else 0], dtype=object if w >= 63 else None), s, w, nf, raw=True)
+                y = big[1]
+            else:
+                big = Fxp(np.stack([np.zeros_like(codes), codes]), s, w, nf, raw=True)
+                y = big[1]
+        elif how == 'resize_roundtrip':
+            y = x.deepcopy()
+            y.resize(s, w + 3, nf + 1)
+            y.resize(s, w, nf)
+        elif how == 'resign_roundtrip':
+            if np.any(codes < 0) or w >= 63:
+                return x, 'none'
+            y = x.deepcopy()
+            y.resize(signed=not s, n_word=w + 1)
+            y.resize(signed=s, n_word=w)
+        elif how == 'raw_set':
+            y = Fxp(None, s, w, nf)
+            y.set_val(codes.copy(), raw=True)
+        elif how == 'equal':
+            y = Fxp(np.zeros(shape) if shape else None, s, w, nf)
+            y.equal(x)
+        elif how == 'from_bin':
+            if w < 2 or nf < 0 or nf > w:
+                return x, 'none'
+            r = x.bin()
+            r = r if isinstance(r, str) else np.array(r).tolist()
+            y = Fxp(None, s, w, nf)
+            y.from_bin(r, raw=True)
+        elif how == 'from_values':
+            if w > 52 or not (-8 <= nf <= w + 8):
+                return x, 'none'
+            y = Fxp(np.asarray(x.astype(float)), s, w, nf)
+        elif how == 'like_template':
+            y = x.like(Fxp(None, s, w, nf))
+        elif how == 'double_transpose':
+            if len(shape) < 2:
+                return x, 'none'
+            y = np.transpose(np.transpose(x))
+        elif how == 'reset_after_flags':
+            y = x.deepcopy()
+            y(float(y.upper) * 2 + 1 if w <= 52 else 0)
+            y.set_val(codes.copy(), raw=True)
+            y.reset()
+        else:
+            return x, 'none'
+        if not isinstance(y, Fxp) or (y.signed, y.n_word, y.n_frac) != (s, w, nf):
+            return x, 'none'
+        if np.shape(y.val) != shape or not np.array_equal(np.asarray(y.val, dtype=object), np.asarray(x.val, dtype=object)):
+            return x, 'none'        # the route itself went wrong: that is for C10/C11/... to report, not for this operand
+        # same configuration as x (a copy, never the same object)
+        y.config = x.config.deepcopy()
+        return y, how
+    except Exception:
+        return x, 'none'
